@@ -190,6 +190,9 @@ def impl_ctor(case):
         import networkx as nx
         L = {"D": nx.DiGraph(L["D"]), "C": nx.DiGraph(L["C"]),
              "U": (nx.Graph if form == 1 else nx.DiGraph)(L["U"]), "B": (nx.Graph if form == 1 else nx.DiGraph)(L["B"])}
+    if sum(len(case["lists"].get(k, [])) for k in KEYS) % 4 == 3:
+        # a user subclass of the graph class is guarded like the class itself
+        cls = type("Study" + cls.__name__, (cls,), {})
     try:
         if FAMILY[case["cls"]] == "C":
             G = cls(incoming_directed_edges=L["D"], incoming_undirected_edges=L["U"])
